@@ -533,7 +533,54 @@ fn lexvalues<W: Write>(r: &mut Rng, cfg: &TermCfg, n: usize, o: &mut Out<W>) {
 const LEX_WS: [&str; 5] = [" ", "\t", "\n", "\u{3000}", "\u{a0}"];
 
 /// C03 / C09 / C10: surface strings with sugar and spacings, both pipelines
+/// C10: the four derived copulas written out with operands of every shape (atoms, one- and two-element sets of
+/// both kinds, nested sets, compounds, statements): both pipelines must build the documented term
+fn sugar_operands<W: Write>(o: &mut Out<W>) {
+    let w = |s: &str| Term::new_word(s);
+    let ops: Vec<Term> = vec![
+        w("a"),
+        Term::new_set_extension(vec![w("a")]),
+        Term::new_set_intension(vec![w("a")]),
+        Term::new_set_extension(vec![w("a"), w("b")]),
+        Term::new_set_intension(vec![w("a"), w("b")]),
+        Term::new_set_extension(vec![Term::new_set_extension(vec![w("a")])]),
+        Term::new_set_intension(vec![Term::new_set_intension(vec![w("a")])]),
+        Term::new_product(vec![w("a"), w("b")]),
+        Term::new_inheritance(w("a"), w("b")),
+        Term::new_variable_independent("x"),
+    ];
+    for f in FORMATS {
+        let ff = efmt(f).unwrap();
+        for s in &ops {
+            for p in &ops {
+                let st = &ff.statement;
+                let cases: Vec<(&str, Term)> = vec![
+                    (st.copula_instance, Term::new_inheritance(Term::new_set_extension(vec![s.clone()]), p.clone())),
+                    (st.copula_property, Term::new_inheritance(s.clone(), Term::new_set_intension(vec![p.clone()]))),
+                    (st.copula_instance_property, Term::new_inheritance(Term::new_set_extension(vec![s.clone()]), Term::new_set_intension(vec![p.clone()]))),
+                    (st.copula_equivalence_retrospective, Term::new_equivalence_predictive(p.clone(), s.clone())),
+                ];
+                for (cop, want) in cases {
+                    let text = format!("{}{} {} {}{}", st.brackets.0, ff.format_term(s), cop, ff.format_term(p), st.brackets.1);
+                    let hs = ser::hs(&text);
+                    let canon = format!("ok {}", ser::narsese(&Narsese::Term(want), Mode::Canon));
+                    let e = o.run("eparse", f, &hs);
+                    let l = o.run("lfold", f, &hs);
+                    o.checked("C10");
+                    if e != canon {
+                        o.fail("C10", f, "derived copula: the enum parser does not build the documented term", &format!("text={hs} got={e} want={canon}"));
+                    }
+                    if l != canon {
+                        o.fail("C10", f, "derived copula: lexical parse + fold does not build the documented term", &format!("text={hs} got={l} want={canon}"));
+                    }
+                }
+            }
+        }
+    }
+}
+
 fn surface<W: Write>(r: &mut Rng, cfg: &TermCfg, n: usize, o: &mut Out<W>) {
+    sugar_operands(o);
     for _ in 0..n {
         let v = gen::narsese(r, cfg);
         term_hist(o, v.get_term());
@@ -966,6 +1013,11 @@ fn seqs<W: Write>(r: &mut Rng, cfg: &TermCfg, n: usize, o: &mut Out<W>) {
             o.checked("C08");
             if multi == "panic" {
                 o.fail("C04", f, "parse_multi panicked", &payload);
+                // C08: the batch must behave like its inputs parsed alone
+                let singles: Vec<String> = inputs.iter().map(|s| exec::eparse_out(ff, s)).collect();
+                if singles.iter().all(|x| x != "panic") {
+                    o.fail("C08", f, "parse_multi panics although every input parsed alone returns Ok or Err", &format!("inputs={payload} singles={}", singles.join(" | ")));
+                }
                 continue;
             }
             for (i, s) in inputs.iter().enumerate() {
@@ -997,6 +1049,24 @@ fn seqs<W: Write>(r: &mut Rng, cfg: &TermCfg, n: usize, o: &mut Out<W>) {
             }
         }
     }
+}
+
+/// the same binary constructor applied to other components
+fn rebuild_binary(t: &Term, a: Term, b: Term) -> Option<Term> {
+    Some(match t {
+        Term::DifferenceExtension(..) => Term::new_difference_extension(a, b),
+        Term::DifferenceIntension(..) => Term::new_difference_intension(a, b),
+        Term::Inheritance(..) => Term::new_inheritance(a, b),
+        Term::Similarity(..) => Term::new_similarity(a, b),
+        Term::Implication(..) => Term::new_implication(a, b),
+        Term::Equivalence(..) => Term::new_equivalence(a, b),
+        Term::ImplicationPredictive(..) => Term::new_implication_predictive(a, b),
+        Term::ImplicationConcurrent(..) => Term::new_implication_concurrent(a, b),
+        Term::ImplicationRetrospective(..) => Term::new_implication_retrospective(a, b),
+        Term::EquivalencePredictive(..) => Term::new_equivalence_predictive(a, b),
+        Term::EquivalenceConcurrent(..) => Term::new_equivalence_concurrent(a, b),
+        _ => return None,
+    })
 }
 
 // ---------------- C14 ----------------
@@ -1049,6 +1119,21 @@ fn api<W: Write>(r: &mut Rng, cfg: &TermCfg, n: usize, o: &mut Out<W>) {
         };
         if !cap_ok {
             o.fail("C14", "-", "capacity class does not match the component count", &raw);
+        }
+        // the capacity class must match the ordered / unordered nature: swapping two DIFFERENT components
+        // gives an equal term exactly for the unordered classes
+        if let TermCapacity::BinaryVec | TermCapacity::BinarySet = t.get_capacity() {
+            let comps = t.get_components();
+            if comps.len() == 2 && comps[0] != comps[1] {
+                let (a, b) = (comps[0].clone(), comps[1].clone());
+                let swapped = rebuild_binary(t, b, a);
+                if let Some(sw) = swapped {
+                    let unordered = matches!(t.get_capacity(), TermCapacity::BinarySet);
+                    if (sw == *t) != unordered {
+                        o.fail("C14", "-", "capacity class (ordered/unordered binary) contradicts equality under swapping the components", &raw);
+                    }
+                }
+            }
         }
     };
     for _ in 0..n {
